@@ -513,6 +513,11 @@ type LoopSpec struct {
 	Decreases  *Clause
 }
 
+type AssertHint struct {
+	Snippet string
+	C       *Clause
+}
+
 type CallSpec struct {
 	Param    string
 	Requires []*Clause
@@ -529,6 +534,7 @@ type FuncSpec struct {
 	LockEnsures  []*Clause
 	Assumes      []*Clause // postconditions assumed at call sites and not proved from the body (global assumptions such as A-fresh)
 	Witnesses []FunDecl
+	Asserts   []*AssertHint
 	Pure      bool
 	Trusted   bool // contract assumed, body not verified (external functions)
 	Lemma     bool
@@ -586,7 +592,7 @@ func NewSpecSet() *SpecSet {
 
 var clauseKeywords = map[string]bool{"requires": true, "ensures": true, "modifies": true, "pure": true, "trusted": true, "lemma": true,
 	"loop": true, "invariant": true, "decreases": true, "callspec": true, "observe": true, "replay": true, "prop": true, "func": true,
-	"sort": true, "fun": true, "ghost": true, "axiom": true, "define": true, "inline": true, "noinline": true, "guarded": true, "flag": true, "loopmodifies": true, "lockrequires": true, "lockensures": true, "lockinvariant": true, "witness": true, "loopfresh": true, "assumes": true, "loopkeeps": true}
+	"sort": true, "fun": true, "ghost": true, "axiom": true, "define": true, "inline": true, "noinline": true, "guarded": true, "flag": true, "loopmodifies": true, "lockrequires": true, "lockensures": true, "lockinvariant": true, "witness": true, "loopfresh": true, "assumes": true, "loopkeeps": true, "assert": true}
 
 // ParseSpecLines parses the //@ lines of one package (pkgPath is used for type resolution).
 func (ss *SpecSet) ParseSpecLines(lines []SpecLine, pkgPath string, keyPrefix string) error {
@@ -727,6 +733,22 @@ func (ss *SpecSet) ParseSpecLines(lines []SpecLine, pkgPath string, keyPrefix st
 				}
 			case "trusted":
 				cur.Trusted = true
+			case "assert":
+				// assert "source snippet" [label] expr : a proof hint checked (and then assumed) after the statement containing the snippet
+				r := strings.TrimSpace(it.rest)
+				if !strings.HasPrefix(r, "\"") {
+					return fmt.Errorf("%s:%d: assert needs a quoted source snippet", it.src.File, it.src.Line)
+				}
+				j := strings.Index(r[1:], "\"")
+				if j < 0 {
+					return fmt.Errorf("%s:%d: unterminated snippet", it.src.File, it.src.Line)
+				}
+				snippet := r[1 : 1+j]
+				c, err := mk("assert", r[j+2:], it.src)
+				if err != nil {
+					return err
+				}
+				cur.Asserts = append(cur.Asserts, &AssertHint{Snippet: snippet, C: c})
 			case "loopfresh":
 				if curLoop == nil {
 					return fmt.Errorf("%s:%d: loopfresh outside loop", it.src.File, it.src.Line)
